@@ -16,6 +16,7 @@ PLAN = {
     "c02_diff": ["asan"],
     "c08_reeval": ["asan"],
     "c04_lookup": ["asan"],
+    "c09_stack": ["asan"],
 }
 
 
